@@ -19,7 +19,9 @@ VARIABLE c
 Formats == {"raw", "qcow2", "vhd", "vhdx", "vmdk", "vdi", "qed", "iso", "gpt", "luks"}
 \* "vmdk_text": the content is a text-only VMDK descriptor carrying createType="..." (no KDMV
 \* header).  It is recognised when the first read covers it (finding F1 for shorter reads), needs
-\* the 64 bytes after which the sparse-header region is examined, and only while those bytes are text.
+\* the 64 bytes after which the sparse-header region is examined, and only while the bytes captured are text
+\* (an overlaid signature with a non-ASCII byte inside the content ends that: VDI's first byte, DEL, at offset 64,
+\* the FAT media byte, the MBR signature at 511).
 ZeroSigs == {"none", "qcow2", "qed", "vhd", "vhdx", "vmdk", "luks", "vmdk_text"}
 Bgs == {"zero", "random", "text", "text_nonascii"}
 \* lengths on both sides of every inspector's decision point
@@ -29,7 +31,7 @@ Lens == {0, 3, 4, 5, 6, 7, 8, 63, 64, 65, 511, 512, 513, 591, 592, 593,
 \* is signature s physically inside a content of length n?
 Present(s, n) == CASE s = "qcow2" -> n >= 4 [] s = "qed" -> n >= 4 [] s = "vhd" -> n >= 8
                    [] s = "vhdx" -> n >= 8 [] s = "vmdk" -> n >= 4 [] s = "luks" -> n >= 6
-                   [] s = "vmdk_text" -> n >= 511
+                   [] s = "vmdk_text" -> n >= 64
                    [] s = "vdi" -> n >= 68 [] s = "gpt" -> n >= 512 [] s = "iso" -> n >= 32774
                    [] OTHER -> FALSE
 Sig(f, x) == (x.zero = f) \/ (f = "vmdk" /\ x.zero = "vmdk_text") \/ (f = "vdi" /\ x.vdi) \/ (f = "gpt" /\ x.gpt) \/ (f = "iso" /\ x.iso)
@@ -41,7 +43,7 @@ Match(f, x) ==
     [] f = "vhd"   -> x.zero = "vhd" /\ x.n >= 8
     [] f = "vhdx"  -> x.zero = "vhdx" /\ x.n >= 8
     [] f = "vmdk"  -> \/ (x.zero = "vmdk" /\ x.n >= 4)
-                      \/ (x.zero = "vmdk_text" /\ x.n >= 511 /\ ~x.vdi /\ ~x.fat /\ ~(x.gpt /\ x.n >= 512))
+                      \/ (x.zero = "vmdk_text" /\ x.n >= 64 /\ ~(x.vdi /\ x.n >= 65) /\ ~x.fat /\ ~(x.gpt /\ x.n >= 512))
     [] f = "luks"  -> x.zero = "luks" /\ x.n >= 6
     [] f = "vdi"   -> x.vdi /\ x.n >= 512
     [] f = "gpt"   -> x.gpt /\ ~x.fat /\ x.n >= 512
